@@ -9,6 +9,9 @@ func init() {
 		NotDecided:  "Round trip of trees as values; nil/empty interchangeability; behaviour as a skipped unknown field beyond the framing check.",
 		Assumptions: []string{"A5"},
 		Run: func(c *Ctx) {
+			// round 11: string escaping of the rendered JSON
+			ruleJSONEscape(c)
+			ruleCountZero(c)
 			ruleJSONDispatch(c)
 			// the entry grammar of the two containers and of a typed value (one entry per element, never empty)
 			ruleSpec(c, func(n string) bool { return strings.Contains(n, "JSON") })
